@@ -208,6 +208,14 @@ def check_plumbing(ctx, rep):
                 found += 1
                 rep.check('C09.K', f"BDSKModel._call::{kw.arg}", kw.arg in srcs, where(cls.module, c), {'keyword': kw.arg, 'sources': sorted(srcs)},
                           f"BDSKModel._call passes `{kw.arg}=` from self.{sorted(srcs)}: the model option `{kw.arg}` does not control what it names")
+                # … the WHOLE of it: an entry picked out of the parameter's tensor on the way (`self.rho.tensor[..., -1:]`) drops the other entries (interior sampling events)
+                exprs = [kw.value] + [st.value for nm in local for st in ast.walk(fn) if isinstance(st, ast.Assign) and any(isinstance(t, ast.Name) and t.id == nm for t in st.targets)]
+                parts = [x for e in exprs for x in ast.walk(e) if isinstance(x, ast.Subscript) and isinstance(x.value, ast.Attribute) and x.value.attr == 'tensor'
+                         and self_attr(x.value.value) == kw.arg and not (isinstance(x.slice, ast.Constant) and x.slice.value is Ellipsis)]
+                if kw.arg in srcs:
+                    rep.check('C09.K', f"BDSKModel._call::{kw.arg}::whole-parameter", not parts, where(cls.module, parts[0] if parts else c), {'parts': [norm_text(x)[:50] for x in parts]},
+                              f"BDSKModel._call hands `{norm_text(parts[0])[:50] if parts else ''}` to the density as `{kw.arg}`: only part of the parameter reaches it, the other "
+                              f"entries (sampling events at interior epoch boundaries) are silently dropped")
     if found < 5:
         raise AnalysisError('BDSKModel._call keyword plumbing not found')
     # positional rates come from the epidemiological conversion of R, delta, s in that order
@@ -800,6 +808,66 @@ def check_tie_convention(ctx, rep):
                   f"across the boundary with `{norm_text(c)[:50]}`: the two conventions disagree for a node exactly on a boundary, so refining the epochs at a node time changes the density")
 
 
+def check_tip_terms_are_masked(ctx, rep):
+    """C09.I (addition) — in the block of PiecewiseConstantBirthDeath.log_prob that classifies the tips (`is_rho_tip = …`), every term that is summed over the tips into the
+    density — a term built from values gathered at the tips' epochs — carries the classification: psi-sampling factors (ψ, 1/q, the removal factor r + (1 − r)·p₀) belong to
+    the tips that are NOT rho-sampled.  A term without the mask is also paid by the tips sampled at a rho event."""
+    from sa.util import backward_slice, local_assignments
+    m = ctx.prog.module(BDSK)
+    cls = m.classes.get('PiecewiseConstantBirthDeath')
+    fn = next((b for b in cls.body if isinstance(b, ast.FunctionDef) and b.name == 'log_prob'), None) if cls is not None else None
+    if fn is None:
+        raise AnalysisError('PiecewiseConstantBirthDeath.log_prob not found')
+    defs = local_assignments(fn)
+    blocks = [n for n in ast.walk(fn) if isinstance(n, ast.If) and any(isinstance(st, ast.Assign) and any(isinstance(t, ast.Name) and t.id == 'is_rho_tip' for t in st.targets) for st in n.body)]
+    if len(blocks) != 1:
+        rep.undecided('C09.I', 'PiecewiseConstantBirthDeath.log_prob::tip-terms-carry-the-classification', where(m, fn), f"{len(blocks)} blocks defining is_rho_tip")
+        return
+    idx = {t.id for st in ast.walk(blocks[0]) if isinstance(st, ast.Assign) and any('searchsorted' in ast.unparse(x) or 'bucketize' in ast.unparse(x) for x in [st.value])
+           for t in st.targets if isinstance(t, ast.Name)}
+    n, bad = 0, []
+    for st in ast.walk(blocks[0]):
+        if isinstance(st, ast.AugAssign) and isinstance(st.target, ast.Name) and isinstance(st.op, ast.Add):
+            names = {x.id for e in backward_slice(st.value, {k: v for k, v in defs.items() if k != st.target.id}) for x in ast.walk(e) if isinstance(x, ast.Name)}
+            if names & idx:
+                n += 1
+                if 'is_rho_tip' not in names:
+                    bad.append(st)
+    if n < 1:
+        rep.undecided('C09.I', 'PiecewiseConstantBirthDeath.log_prob::tip-terms-carry-the-classification', where(m, blocks[0]), 'no per-tip term found in the block that classifies the tips')
+        return
+    rep.check('C09.I', 'PiecewiseConstantBirthDeath.log_prob::tip-terms-carry-the-classification', not bad, where(m, bad[0] if bad else blocks[0]), {'per_tip_terms': n},
+              f"`{norm_text(bad[0])[:70] if bad else ''}` adds a term gathered at the tips' epochs without the rho / psi classification of the tips: tips sampled at a rho event pay the "
+              f"psi-sampling factor as well (with a removal probability below one the density of a tree with a tip at the present is off by log(r + (1 − r)·p₀) per such tip)")
+
+
+def check_constraints_agree(ctx, rep):
+    """C09.F (addition) — the constant and the skyline model declare the same domain for the parameters they share (`arg_constraints`): the single-epoch skyline must accept
+    every value the constant model accepts (complete sampling at the present, rho = 1, included)."""
+    tables = {}
+    for mn, cn in ((BDSK, 'PiecewiseConstantBirthDeath'), (BD, 'BirthDeath')):
+        m = ctx.prog.module(mn)
+        c = m.classes.get(cn)
+        tb = None
+        for st in (c.body if c is not None else []):
+            if isinstance(st, ast.Assign) and any(isinstance(t, ast.Name) and t.id == 'arg_constraints' for t in st.targets) and isinstance(st.value, ast.Dict):
+                tb = {k.value: v for k, v in zip(st.value.keys, st.value.values) if isinstance(k, ast.Constant)}
+        if tb is None:
+            rep.undecided('C09.F', 'arg_constraints::siblings-agree', '', f"arg_constraints of {cn} not found")
+            return
+        tables[cn] = (m, tb)
+
+    def norm(e):
+        t = ast.unparse(e).replace(' ', '').replace('constraints.', '')
+        return {'greater_than_eq(0.0)': 'nonnegative', 'greater_than_eq(0)': 'nonnegative', 'greater_than(0.0)': 'positive', 'greater_than(0)': 'positive',
+                'interval(0.0,1.0)': 'unit_interval'}.get(t, t)
+    (m1, a), (m2, b) = tables['PiecewiseConstantBirthDeath'], tables['BirthDeath']
+    for k in sorted(set(a) & set(b)):
+        rep.check('C09.F', f"arg_constraints::{k}::siblings-agree", norm(a[k]) == norm(b[k]), where(m1, a[k]), {'skyline': norm(a[k]), 'constant': norm(b[k])},
+                  f"the skyline model declares `{k}` in {norm(a[k])}, the constant model in {norm(b[k])}: a value one of them accepts (rho = 1: complete sampling at the present) is "
+                  f"rejected by the other, so the single-epoch skyline cannot be compared with — or substituted for — the constant model there")
+
+
 def check_rho_tip_alignment(ctx, rep):
     """C09.I — which sampling probability decides that a tip on an epoch boundary is rho-sampled.  rho is laid out one entry per epoch, entry j belonging to the boundary that
     *ends* epoch j (times[j+1]; C09.R keeps the present last).  For a tip exactly on boundary k (k = 1 … m) the index expression handed to rho.gather in the definition of
@@ -977,7 +1045,7 @@ def run(ctx, rep):
     rep.rule('C09.R', "rho padded to one entry per epoch keeps the sampling probability last (zeros first)")
     rep.not_decided += ["epoch-refinement invariance", "boundary coincidences", "agreement with the master equations numerically"]
     for f, rule in ((check_options, 'C09.O'), (check_positional_options, 'C09.O'), (check_plumbing, 'C09.K'), (check_members, 'C09.U'), (check_formulas, 'C09.F'), (check_purity, 'C09.P'),
-                    (check_snapshots, 'C09.P'), (check_rho_alignment, 'C09.R'), (check_tie_convention, 'C09.B'), (check_rho_tip_alignment, 'C09.I'), (check_exact_comparisons, 'C09.E')):
+                    (check_snapshots, 'C09.P'), (check_tip_terms_are_masked, 'C09.I'), (check_constraints_agree, 'C09.F'), (check_rho_alignment, 'C09.R'), (check_tie_convention, 'C09.B'), (check_rho_tip_alignment, 'C09.I'), (check_exact_comparisons, 'C09.E')):
         try:
             f(ctx, rep)
         except Unsupported as u:
